@@ -36,3 +36,29 @@ def count_valid(window):
 
 def range_reducer(z):
     return z.max() - z.min()
+
+
+# numba-compilable twins used by the replay worker (the real focal.apply calls the reducer from nopython code)
+try:
+    import numba as _nb
+    import numpy as _np
+
+    @_nb.njit
+    def pos_weighted_sum_numba(window):
+        flat = window.ravel()
+        tot = 0.0
+        for i in range(flat.shape[0]):
+            if not _np.isnan(flat[i]):
+                tot += (i + 1) * flat[i]
+        return tot
+
+    @_nb.njit
+    def count_valid_numba(window):
+        flat = window.ravel()
+        n = 0.0
+        for i in range(flat.shape[0]):
+            if not _np.isnan(flat[i]):
+                n += 1.0
+        return n
+except ImportError:
+    pass
